@@ -184,8 +184,11 @@ class KillScenario:
         self.big = big
         self.stats = dict(kills=0, not_killed=0, left_tmp=0, mixed=0, all_old=0, all_new=0, resync_equal_new=0, rounds=0, calls=0)
 
-    def env(self, t, log=None, kill=None):
+    def env(self, t, log=None, kill=None, fault=None):
         e = {'LD_PRELOAD': self.shim, 'C09_FAKE_TIME': str(t), 'C09_MATCH': MATCH}
+        if fault:
+            e['C09_FAULT_AT'] = str(fault[0])
+            e['C09_FAULT_MODE'] = fault[1]
         if log:
             e['C09_LOG'] = log
         if kill:
@@ -369,6 +372,69 @@ class KillScenario:
                 pass
         return probs
 
+    def fault_points(self):
+        pts = []
+        for (a, b) in self.rounds:
+            for e in self.twin_ev:
+                if a <= e['n'] <= b and e['op'] in ('write', 'pwrite'):
+                    for mode in ('bitflip', 'shorten', 'enospc', 'eio'):
+                        pts.append((e['n'], mode, b, e['path']))
+        return pts
+
+    def run_fault(self, pt):
+        """write fault at numbered call n (on the .tmp of one copy), process killed right after the last rename of that save round
+        if it ever gets there.  Property: the command stops with an error and no copy was replaced in that round -- or, if it went
+        on to the renames, every copy is a complete CRC-valid file and all are byte-identical."""
+        n, mode, b, path = pt
+        name = 'f%d_%s' % (n, mode)
+        wd = self.clone(name)
+        log = os.path.join(self.root, name + '.log')
+        probs = []
+        try:
+            rc, out = L.run_tool(self.tool, ['-c', 'conf', 'sync'], wd, self.env(T1, log, (b, 'after'), (n, mode)))
+            r = 0
+            for i, (a, bb) in enumerate(self.rounds):
+                if n >= a:
+                    r = i
+            old = self.versions[r]
+            cp = self.read_copies(wd)
+            ev = parse_log(log)
+            renamed = [e['path2'] for e in ev if e['op'] == 'rename' and e['n'] >= self.rounds[r][0]]
+            rep = dict(copies=self.nc, fault_at=n, fault=mode, on=path, round=r, rc=rc, renamed=renamed, big=self.big,
+                       copies_valid=[L.seal_ok(c or b'') for c in cp], output=out[-600:].decode(errors='replace'))
+            self.stats['faults'] = self.stats.get('faults', 0) + 1
+            if rc == 'timeout':
+                probs.append(('write fault %s at call %d: the command hangs' % (mode, n), rep))
+            elif renamed or rc in (0, -9):
+                # the tool went on to the renames (rc -9 = our kill after the last rename of the round)
+                self.stats['fault_proceeded'] = self.stats.get('fault_proceeded', 0) + 1
+                bad = [self.contents[i] for i, c in enumerate(cp) if not L.seal_ok(c or b'')]
+                if bad:
+                    probs.append(('write fault (%s) on %s at call %d of a save with %d copies: the command went on to rename (%s) and installed a content '
+                                  'copy that is not CRC-valid: %s' % (mode, path, n, self.nc, ', '.join(renamed) or 'exit 0', ', '.join(bad)),
+                                  dict(rep, got=[(c or b'').hex()[:2000] for c in cp])))
+                elif any(c != cp[0] for c in cp):
+                    probs.append(('write fault (%s) on %s at call %d: the command went on and left content copies that differ' % (mode, path, n), rep))
+            else:
+                self.stats['fault_refused'] = self.stats.get('fault_refused', 0) + 1
+                if any(c != old for c in cp):
+                    probs.append(('write fault (%s) on %s at call %d: the command failed (rc=%r) but a content copy is no longer the complete old file' % (
+                        mode, path, n, rc), rep))
+                if not any(m in out for m in (b'DANGER', b'Error writing', b'Error', b'Failed')):
+                    probs.append(('write fault (%s) at call %d: non-zero exit without a diagnostic' % (mode, n), rep))
+            # whatever happened, the next sync must bring all copies to one valid file
+            rc3, out3 = L.run_tool(self.tool, ['-c', 'conf', 'sync'], wd, self.env(T1))
+            cp3 = self.read_copies(wd)
+            if not probs and (rc3 != 0 or any(c != cp3[0] for c in cp3) or not L.seal_ok(cp3[0] or b'')):
+                probs.append(('after a write fault (%s at call %d) the next sync does not restore identical valid copies (rc=%r)' % (mode, n, rc3), rep))
+        finally:
+            shutil.rmtree(wd, ignore_errors=True)
+            try:
+                os.unlink(log)
+            except FileNotFoundError:
+                pass
+        return probs
+
     def stale_tmp_cases(self):
         """explicit left-overs: garbage tmp, tmp that is a hard link / a symlink to the live content file (O_EXCL + remove)"""
         probs = []
@@ -407,6 +473,10 @@ class KillScenario:
             for pr in ex.map(self.run_kill, pts):
                 probs += pr
         probs += self.stale_tmp_cases()
+        if self.nc >= 2:
+            with ThreadPoolExecutor(max_workers=workers) as ex:
+                for pr in ex.map(self.run_fault, self.fault_points()):
+                    probs += pr
         d = L.snapshot_diff(self.data_snap, L.snapshot_tree(os.path.join(self.root, 'data')))
         if d:
             probs.append(('data files changed during the kill runs: %s' % d[:3], dict(copies=self.nc)))
